@@ -92,6 +92,16 @@ def run(chk, repo, tier):
                 oks = oks and e.bound.get('waveunit') == S('waveunit') and e.bound.get('wave') == S('wave') and \
                     e.data.get('kwargs', {}).get('waveunit') is not None
         chk.ob('C16-b', 'B5-default', fq.key, 'waveunit is passed explicitly to Spectrum.sample', oks and n > 0, '', fq.loc())
+        # outside the band an efficiency curve is tabulated for nothing is detected: the samples there are the default fill, 0
+        okf, detf, nf_ = True, '', 0
+        for p in returns(qp):
+            for e in p.calls('radiometry.Spectrum.sample'):
+                nf_ += 1
+                fv = e.bound.get('fill_value')
+                if fv is not None and not (isinstance(fv, Poly) and fv.is_zero()):
+                    okf, detf = False, f'fill_value = {fmt(fv)[:80]}: wavelengths outside the tabulated range are given an efficiency'
+        chk.ob('C16-b', 'B5-default', fq.key, 'an efficiency curve is zero outside the wavelengths it is tabulated for', okf and nf_ > 0,
+               detf, fq.loc())
 
     fb = repo.func('detector.collect_charge_bayer')
     # each colour block is an array of its own: an in-place operation on something taken out of a container that all three
@@ -105,6 +115,28 @@ def run(chk, repo, tier):
                 ta = e.target.single_atom() if isinstance(e.target, Poly) else None
                 if ta is not None and ta[0] == 'idx' and is_app(ta[1], ('dict', 'list', 'defaultdict', 'collections.defaultdict', 'OrderedDict')):
                     shared.append(f'in-place {e.data.get("op", "operator")} on {fmt(e.target)[:70]} at {e.loc()}')
+    # ... nor is a running total started as another name for one of the blocks (`out = channels[-1]` followed by `out += ...`
+    # adds the other channels into the red block that is handed out with flatten=False)
+    import ast as _ast
+    assigns = {}
+    for node in _ast.walk(fb.node):
+        if isinstance(node, _ast.Assign) and len(node.targets) == 1 and isinstance(node.targets[0], _ast.Name):
+            assigns.setdefault(node.targets[0].id, []).append(node.value)
+    for node in _ast.walk(fb.node):
+        if isinstance(node, _ast.AugAssign) and isinstance(node.target, _ast.Name):
+            for rhs in assigns.get(node.target.id, []):
+                src = None
+                if isinstance(rhs, _ast.Name):
+                    src = rhs.id
+                elif isinstance(rhs, _ast.Subscript) and isinstance(rhs.value, _ast.Name):
+                    src = rhs.value.id
+                if src is None or src == node.target.id:
+                    continue
+                later = [n_ for n_ in _ast.walk(fb.node) if isinstance(n_, _ast.Name) and n_.id == src and isinstance(n_.ctx, _ast.Load)
+                         and (n_.lineno, n_.col_offset) > (node.lineno, node.col_offset)]
+                if later:
+                    shared.append(f'`{node.target.id}` is another name for `{fb.module.segment(rhs)[:30]}` and is updated in place at {fb.loc(node)}, '
+                                  f'`{src}` is used again at {fb.loc(later[0])}')
     chk.ob('C16-c', 'E-ownership', fb.key, 'the colour blocks do not share storage', not shared,
            '; '.join(sorted(set(shared))[:2]) or 'no in-place operation on an entry of a container', fb.loc())
     with chk.guard(['C16-a', 'C16-b', 'C16-c', 'C16-d'], fb.key, 'colour channels recognisable in the result'):
